@@ -258,6 +258,13 @@ _PNAMES = ["snr", "alpha", "Zeta", "p"]
 def _combine_case(draw, tier):
     specs = draw(_result_specs(3))
     nun = draw(st.sampled_from([1, 1, 2]))
+    # 'cross' class: two swept parameters whose smallest values were never
+    # simulated together (the FIRST combination of the union grid belongs to
+    # neither source), a CHOICE result among the results, three sets
+    cross = nun == 2 and draw(st.integers(0, 5)) == 0
+    if cross and not any(sp["type"] == "CHOICE" for sp in specs):
+        specs[-1] = dict(specs[-1], type="CHOICE", cls="choice",
+                         choice_num=draw(st.integers(1, 6)))
     names = draw(st.permutations(_PNAMES))[:nun + 1]
     unpacked = []
     for nm in names[:nun]:
@@ -303,6 +310,10 @@ def _combine_case(draw, tier):
         if kind == "mixed":
             b = [x + draw(st.sampled_from([0.0, 0.0, 0.5, 0.25])) for x in b]
             c = [float(x) for x in c]
+        if cross and kind in ("int", "float", "close", "str") and \
+                len(pool) >= 2:
+            lo, hi = sorted(pool)[0], sorted(pool)[1]
+            a, b = ([lo], [hi]) if len(unpacked) == 0 else ([hi], [lo])
         unpacked.append(dict(name=nm, a=list(a), b=list(b), c=list(c),
                              kind=kind,
                              container=draw(st.sampled_from(
@@ -320,7 +331,8 @@ def _combine_case(draw, tier):
     a_obs = [draw(rep) for _ in range(na)]
     b_obs = [draw(rep) for _ in range(nb)]
     # a third result set, combined as (a+b)+c or a+(b+c)
-    third = draw(st.sampled_from([None, None, "left", "right"]))
+    third = draw(st.sampled_from(["left", "right"] if cross else
+                                 [None, None, "left", "right"]))
     c_obs = [draw(rep) for _ in range(nc)] if third else []
     # value accumulation may have been switched on for some of the sets only
     acc_sides = draw(st.one_of(st.none(), st.none(), st.lists(
